@@ -24,6 +24,13 @@ func genC15(g *gen) {
 	c.NMgrs = pick(g.r, 1, 2, 2)
 	c.FaultFree = false
 	c.FreeTasks = true
+	// three runs in four hold library goroutines up at a random subset of their statements (T6): a
+	// goroutine that sleeps on the fake clock across driver steps is not ordered after them
+	if g.chance(0.75) {
+		c.StallPermille = pick(g.r, 3, 10, 30)
+		c.StallHitPct = pick(g.r, 20, 50, 100)
+		c.StallMaxShift = pick(g.r, 10, 14, 16) // up to 1 ms, 16 ms, 65 ms
+	}
 	c.SendBuffer = pick(g.r, 0, 1, 16)
 	g.genConfigs(true)
 	n := c.NServers
